@@ -162,6 +162,9 @@ type vLine struct {
 	// 0..k-1 a STALE handle on the channel (what the chain watcher holds)
 	// reproduces exactly through RemoteRevocationStore (-1: not evaluated)
 	RSK    int64            `json:"rsk"`
+	// Rej: a revoke_and_ack with a secret that is not on the peer's chain was
+	// refused (1) or accepted (0) by ReceiveRevocation; -1 on other lines
+	Rej int `json:"rej"`
 	NTx    map[string]int64 `json:"ntx,omitempty"`
 	Type   string           `json:"type,omitempty"`
 	Opener string           `json:"opener,omitempty"`
@@ -602,6 +605,7 @@ func TestVerifChannelExec(t *testing.T) {
 		lastPre := map[string][32]byte{} // per party+amount, for duplicates
 		ndup := 0
 		ntouch := 0
+		nbad := 0
 		npre := 0
 
 		out.Emit(vLine{vEv: vEv{A: "Reset", P: "A"}, Type: tname, Opener: opener, File: filepath.Base(f), Poor: poor,
@@ -637,6 +641,7 @@ func TestVerifChannelExec(t *testing.T) {
 				var err error
 				txeq, relh := -1, int64(-1)
 				nph, lup, crp, nrk, rsk := int64(-1), int64(-1), int64(-1), int64(-1), int64(-1)
+				rej := -1
 				pop := func(kinds ...string) vMsg {
 					if len(peer.out) == 0 {
 						panic(verifDiverged(fmt.Sprintf("%s: %v: peer queue empty", f, e)))
@@ -759,6 +764,29 @@ func TestVerifChannelExec(t *testing.T) {
 					if err == nil {
 						rsk = vStaleSecrets(me.stale, peer.lc)
 					}
+				case "RecvBadRev":
+					// the genuine message stays queued; a copy with a secret that is
+					// not on the sender's chain is delivered first
+					if len(peer.out) == 0 || peer.out[0].kind != "rev" {
+						panic(verifDiverged(fmt.Sprintf("%s: %v: no revocation queued", f, e)))
+					}
+					nbad++
+					bad := *peer.out[0].rev
+					if nbad%2 == 1 {
+						// the negation of the right scalar: the same x coordinate
+						// of the commitment point, the other y
+						var sc btcec.ModNScalar
+						sc.SetByteSlice(bad.Revocation[:])
+						sc.Negate()
+						bad.Revocation = sc.Bytes()
+					} else {
+						bad.Revocation[31] ^= 0x01
+					}
+					_, _, rerr := me.lc.ReceiveRevocation(&bad)
+					rej = 0
+					if rerr != nil {
+						rej = 1
+					}
 				case "UpdateFee":
 					err = me.lc.UpdateFee(chainfee.SatPerKWeight(e.X))
 					if err == nil {
@@ -786,13 +814,17 @@ func TestVerifChannelExec(t *testing.T) {
 					// arbitrator hold): a status update that sets no bit, the close
 					// height recorded at spend detection, its reset on a reorg
 					ntouch++
-					switch ntouch % 3 {
+					switch ntouch % 4 {
 					case 0:
 						err = me.stale.ApplyChanStatus(channeldb.ChanStatusDefault)
 					case 1:
 						err = me.stale.MarkCloseConfirmationHeight(fn.Some(uint32(100 + ntouch)))
-					default:
+					case 2:
 						err = me.stale.ResetCloseConfirmationHeight()
+					default:
+						// the funding manager's copy learns the confirmed scid of a
+						// zero-conf channel that is already in use
+						err = me.stale.MarkRealScid(lnwire.NewShortChanIDFromInt(uint64(7000 + ntouch)))
 					}
 				case "LiveRefresh":
 					// channelLink.UpdateShortChanID: the live channel's state is
@@ -861,7 +893,7 @@ func TestVerifChannelExec(t *testing.T) {
 				}
 
 				tl := vLine{vEv: e, St: map[string]vParty{}, Sh: map[string]vParty{}, SigOk: map[string]int{},
-					TxEq: txeq, RelH: relh, NPH: nph, LUP: lup, CRP: crp, NRK: nrk, RSK: rsk}
+					TxEq: txeq, RelH: relh, NPH: nph, LUP: lup, CRP: crp, NRK: nrk, RSK: rsk, Rej: rej}
 				tl.A = name
 				tl.NTx = map[string]int64{}
 				for n, s := range sides {
